@@ -66,10 +66,13 @@ def faultHits (fault : Fault) (lp lc pp pc : Nat) : Bool :=
 def tagsRejected (tags : List TagEntry) : Bool :=
   tags.any fun e => e.leaf.isUnsupported || e.path.any badKey
 
-/-- the entity's value cannot be persisted: a role is stored as a list key (type byte + value) and bbolt
+/-- a linked id names an entity the linked store does not have -/
+def linksRejected (links : List String) : Bool := links.any fun t => !qIds.contains t
+
+/-- the entity's value cannot be persisted (a link target that does not exist included): a role is stored as a list key (type byte + value) and bbolt
     refuses keys above its key size; or the tags value is unpersistable -/
 def keyRejected (f : PFields) : Bool :=
-  f.roles.any (fun r => r.utf8ByteSize + 1 > maxKeySize) || tagsRejected f.tags
+  f.roles.any (fun r => r.utf8ByteSize + 1 > maxKeySize) || tagsRejected f.tags || linksRejected f.links
 
 /-- name: non-nullable unique index — a create (from scratch, or of child data over an existing plain
     parent entity) always writes its entry, an update only when the name changes: the name must then be
@@ -237,6 +240,12 @@ def specSteps (env : Env) : List Step → Body → Body
     else { b with accepted := false }
   | .fail _ :: _, b => { b with accepted := false }
   | .fail1 _ :: _, b => { b with accepted := false }
+  -- a link operation of the caller: rejected when the entity does not exist or a target to be linked does
+  -- not; otherwise the entity's link set changes (no event: the entity stores are not involved)
+  | .link op id ts :: rest, b =>
+    match (linkStep op id ts b.db).1 with
+    | some _ => { b with accepted := false }
+    | none => specSteps env rest { b with db := (linkStep op id ts b.db).2 }
   | .addCommit tag :: rest, b => specSteps env rest { b with ctx := { b.ctx with commitActions := b.ctx.commitActions ++ [tag] } }
   | .addPre tag fails :: rest, b => specSteps env rest { b with ctx := { b.ctx with preActions := b.ctx.preActions ++ [(tag, fails)] } }
   | .nestedBegin :: rest, b => specSteps env rest b
